@@ -47,7 +47,8 @@ ASSUMPTIONS = [
 ]
 RULE = ("distinct generated definitions (python and shell; requirement sets with/without allowed values, xor groups, help, "
         "explicit defaults, allowed_values, argstr forms, explicit/negative positions, sep, outarg with path template, "
-        "out with callable, typed python outputs) round-tripped on the real code; non-trivial = the dictionary drops at "
+        "out with callable, typed python outputs, outputs named like an input, class-form definitions with inherited "
+        "fields) round-tripped on the real code; non-trivial = the dictionary drops at "
         "least one defaulted attribute and keeps at least one non-default attribute besides type, for some field")
 
 IMPORTS = ["Model.DictRT", "Spec.DictRT"]
@@ -316,6 +317,55 @@ def special_defs():
         "cmd", name="NoTpl", outputs={"o": shell.outarg(type=File | None, default=None, argstr="-o")})))
     out.append(("any-typed-tuple-default", "F32c", lambda: mkpy("AnyTup", a=python.arg(type=ty.Any, default=(1, 2)))))
     out.append(("any-typed-set-default", "F32c", lambda: mkpy("AnySet", a=python.arg(type=ty.Any, default=frozenset(["k"])))))
+    # field selection by predicate in unstructure(): inputs vs outputs vs outargs vs inherited fields
+    def scale(x, factor=2):
+        return x * factor
+    out.append(("python: input and output share a name", None, lambda: python.define(
+        scale, inputs={"x": python.arg(type=float, allowed_values=[1, 2, 3], help="the value to scale"),
+                       "factor": python.arg(type=int, default=3)},
+        outputs={"x": python.out(type=float, help="the scaled value")}, name="Scale")))
+    out.append(("shell: input and plain output share a name, next to an outarg", None, lambda: shell.define(
+        "echo", name="SameName",
+        inputs={"a": shell.arg(type=str | None, default=None, argstr="-a", requires=["b"]),
+                "b": shell.arg(type=bool, default=False, argstr="-b")},
+        outputs={"a": shell.out(type=int, callable=rg.count_chars, help="chars"),
+                 "o": shell.outarg(type=File, path_template="o.txt", argstr="-o")})))
+
+    def class_forms():
+        @shell.define
+        class Base(shell.Task["Base.Outputs"]):
+            executable = "echo"
+            x: str = shell.arg(argstr="-x", default="q", help="base x")
+
+            class Outputs(shell.Outputs):
+                n: int = shell.out(callable=rg.count_chars)
+
+        @shell.define(xor=["x", "y"])
+        class Child(Base):
+            y: int | None = shell.arg(argstr="-y", default=None, requires=["x"])
+
+            class Outputs(Base.Outputs):
+                o: File = shell.outarg(path_template="{x}.out", argstr="-o")
+                x: str = shell.out(callable=rg.first_word)
+        return Base, Child
+    out.append(("class form, base", None, lambda: class_forms()[0]))
+    out.append(("class form, inherited inputs/outputs, outarg, output named like an inherited input", None,
+                lambda: class_forms()[1]))
+
+    def py_class():
+        @python.define
+        class PyCls(python.Task["PyCls.Outputs"]):
+            a: int = python.arg(default=1, help="a", allowed_values=[1, 2])
+            b: str | None = None
+
+            class Outputs(python.Outputs):
+                a: int
+
+            @staticmethod
+            def function(a, b):
+                return a
+        return PyCls
+    out.append(("python class form, output named like an input", None, py_class))
     out.append(("template-string shell definition", None, lambda: shell.define(
         "my-cmd <in_file:str> <out|out_file> --an-arg <an_arg:int=2> --a-flag<a_flag> --opt <opt:str?>")))
     return out
@@ -363,14 +413,14 @@ def run(ctx):
                 items.append((c.get("why", "corpus"), None, c["spec"], None))
         for label, finding, mk in special_defs():
             items.append((label, finding, None, mk))
-        n = ctx.budget(220, 2500)
+        n = ctx.budget(220, 1800)
         for i in range(n):
             if i % 3 == 0:
                 spec = rg.sample_def(rng, rng.choice([1, 2, 3, 4, 5]))          # the C31 generator as is
             else:
                 spec = rg.sample_def32(rng)
             items.append(("generated", None, spec, None))
-        run_budget = ctx.budget(25, 250)
+        run_budget = ctx.budget(25, 180)
         for label, finding, spec, mk in items:
             try:
                 cls = mk() if mk else rg.build(spec)
@@ -423,6 +473,8 @@ def run(ctx):
                     dist["with_requires"] = dist.get("with_requires", 0) + 1
                 if spec.get("xor"):
                     dist["with_xor"] = dist.get("with_xor", 0) + 1
+                if {o["name"] for o in spec.get("outputs", []) if o.get("cls") != "outarg"} & {f["name"] for f in spec["fields"]}:
+                    dist["input_and_plain_output_share_a_name"] = dist.get("input_and_plain_output_share_a_name", 0) + 1
                 if any(o.get("cls") == "outarg" for o in spec.get("outputs", [])):
                     dist["with_outarg"] = dist.get("with_outarg", 0) + 1
     finally:
